@@ -2,15 +2,36 @@ HOOK_COMMITS = []
 NOT_APPLICABLE = {}
 _NOTE = ("Trusted base: the reference interpreter pdtverif/refsem.py (written from the docstrings), the value domain of "
          "DESIGN.md section 4, Hypothesis, Polars 1.44 and stdlib SQLite 3.40 as the only executing SQL engine. "
-         "Exploration never shows absence; bounds are in the evidence file.")
+         "Exploration never shows absence; bounds and class histograms are in the evidence file.")
+_T_REF = "property-based testing (Hypothesis) against a reference interpreter"
+
+
+def _c(text, ref, technique=_T_REF, note=_NOTE):
+    return {"text": text, "design_ref": ref, "note": note, "technique": technique}
+
+
 CHECKS = {
-    "C02": {
-        "text": "Generated compositions of the row-level verbs over generated tables are executed on Polars and SQLite and "
-                "compared (names, order, rows) with an independent reference interpreter; failures are bucketed, reduced "
-                "and written as replay files. Exploration is the right level: the property quantifies over programs and "
-                "inputs and has an executable oracle.",
-        "design_ref": "DESIGN.md section 6 C02",
-        "note": _NOTE,
-        "technique": "property-based testing (Hypothesis) against a reference interpreter",
-    },
+    "C01": _c("Generated pipelines over the full verb set are built on Polars and on SQLite and the exported frames are "
+              "compared (names exactly; rows as multisets or as sequences modulo ties under the binding arrange keys). "
+              "Exploration with an executable differential oracle is the right level for a property over programs and inputs.",
+              "DESIGN.md section 6 C01", "differential property-based testing (Hypothesis), Polars vs SQLite"),
+    "C02": _c("Generated compositions of the row-level verbs over generated tables are executed on Polars and SQLite and "
+              "compared (names, order, rows) with an independent reference interpreter; failures are bucketed, reduced "
+              "and written as replay files.", "DESIGN.md section 6 C02"),
+    "C03": _c("A complete grid of operand tuples for every operator named in the statement (exhaustive over the stated "
+              "grids, all three operand forms) plus generated nested expressions, each cell compared with the reference "
+              "value on Polars and SQLite.", "DESIGN.md section 6 C03",
+              "complete enumeration of operand grids + property-based testing against a reference interpreter"),
+    "C04": _c("Generated group_by/summarize pipelines with prefix and suffix verbs compared with the reference "
+              "(one row per distinct key tuple, null-ignoring aggregates, filter=, HAVING semantics) on both backends.",
+              "DESIGN.md section 6 C04"),
+    "C05": _c("Generated arrange chains and window-function mutates in all positions relative to filter/slice_head/"
+              "select/rename/alias compared with the reference (stable sort with explicit null placement, per-partition "
+              "window values) - exact sequence on Polars, sequence modulo ties on SQLite.", "DESIGN.md section 6 C05"),
+    "C06": _c("Generated joins (all kinds, predicates, name-collision configurations, prefix verbs on both sides) compared "
+              "with a reference nested-loop join, a validity predicate for the result names, and probe columns through "
+              "the original references of every reachable column.", "DESIGN.md section 6 C06"),
+    "C07": _c("Generated unions (permuted column order, hidden columns, duplicates, chained and same-origin unions), "
+              "hidden-column leak probes and the refusal catalogue, compared with the reference / the documented "
+              "exception types on both backends.", "DESIGN.md section 6 C07"),
 }
